@@ -567,4 +567,5 @@ static void wper_gen(Ctx& ctx) {
     });
 }
 
+VK_FRESH_THREADS;
 VK_MAIN("C11")
